@@ -515,12 +515,16 @@ update_desktop_file_entry (BusActivation       *activation,
 
       if (!_dbus_hash_table_insert_string (activation->entries, entry->name, bus_activation_entry_ref (entry)))
         {
+          /* the table did not take the reference */
+          bus_activation_entry_unref (entry);
           BUS_SET_OOM (error);
           goto out;
         }
 
       if (!_dbus_hash_table_insert_string (s_dir->entries, entry->filename, bus_activation_entry_ref (entry)))
         {
+          /* the table did not take the reference */
+          bus_activation_entry_unref (entry);
           /* Revert the insertion in the entries table */
           _dbus_hash_table_remove_string (activation->entries, entry->name);
           BUS_SET_OOM (error);
@@ -568,6 +572,8 @@ update_desktop_file_entry (BusActivation       *activation,
       if (!_dbus_hash_table_insert_string (activation->entries,
                                            entry->name, bus_activation_entry_ref(entry)))
         {
+          /* the table did not take the reference */
+          bus_activation_entry_unref (entry);
           BUS_SET_OOM (error);
           /* Also remove path to entries hash since we want this in sync with
            * the entries hash table */
